@@ -7,6 +7,9 @@
      TSetRet         logged after that Set call returned
      TSetRejected    Set returned an error
      TAccept c       the peer accepted TCP connection c (before sending its OPEN)
+     TOpen c asn hold   what the OPEN the session sent on c says
+     TOpenSent c     the peer sends its own OPEN now (scripted delay possible)
+     TKeepalive c ph a KEEPALIVE other than the accepting one
      THandshake c asn fb acc   peer presented AS [asn], 4-octet capability [fb];
                      acc = the session answered with KEEPALIVE (else it closed)
      TUpd c k v / TWdr c ks    UPDATE / withdraw decoded by the peer on c
@@ -38,11 +41,15 @@ Inductive tev :=
 | TSetRet
 | TSetRejected
 | TAccept (c : N)
+| TOpen (c asn hold : N)           (* AS number (4-octet capability) and hold time of the OPEN the session sent on c *)
+| TOpenSent (c : N)                (* the peer is about to send ITS OPEN on c (it may delay it) *)
+| TKeepalive (c ph : N)            (* a KEEPALIVE after the accepting one; ph = hold time the peer announced *)
 | THandshake (c asn : N) (fb acc : bool)
 | TUpd (c k v w : N)               (* w: width of the AS numbers in AS_PATH as written: 0 (empty path), 2, 4 *)
 | TWdr (c : N) (ks : list N)
 | TDrop (c : N)
 | TCloseRet
+| TOpenAfterClose (c : N)         (* 1.5 s after Close returned the peer still sees c open: never a model trace *)
 | TFinal (c : N) (tbl : list (key * attrs))
 | TFinalClosed.
 
@@ -61,14 +68,15 @@ Record cstate := { cs_id : N; cs_j : nat; cs_tbl : table; cs_live : bool;
 Record rstate := { sets : list table;          (* S_0 = empty, S_1, ... in call order *)
                    nret : nat;                  (* number of Set calls that have returned *)
                    accepted : list (N * nat);   (* TAccept seen, with [nret] at that moment *)
+                   late : list N;               (* connections whose peer OPEN was sent after Close had returned *)
                    conns : list cstate;         (* established connections *)
                    closedret : bool }.
 
-Definition rstate0 : rstate := {| sets := [empty]; nret := 0; accepted := []; conns := []; closedret := false |}.
+Definition rstate0 : rstate := {| sets := [empty]; nret := 0; accepted := []; late := []; conns := []; closedret := false |}.
 
 Definition find_conn (c : N) (r : rstate) : option cstate := find (fun x => cs_id x =? c) (conns r).
 Definition set_conn (x : cstate) (r : rstate) : rstate :=
-  {| sets := sets r; nret := nret r; accepted := accepted r;
+  {| sets := sets r; nret := nret r; accepted := accepted r; late := late r;
      conns := x :: filter (fun y => negb (cs_id y =? cs_id x)) (conns r); closedret := closedret r |}.
 
 (* smallest index j' >= j with [ok (nth j' sets)] *)
@@ -85,12 +93,21 @@ Definition tbl_eq_on (U : list key) (a b : table) : bool := forallb (fun k => oe
 Definition rstep (g : cfg) (r : rstate) (e : tev) : option rstate :=
   match e with
   | TSet l => if forallb (fun p => mem (fst p) (universe g)) l
-              then Some {| sets := sets r ++ [map_of l]; nret := nret r; accepted := accepted r; conns := conns r; closedret := closedret r |}
+              then Some {| sets := sets r ++ [map_of l]; nret := nret r; accepted := accepted r; late := late r; conns := conns r; closedret := closedret r |}
               else None
-  | TSetRet => Some {| sets := sets r; nret := S (nret r); accepted := accepted r; conns := conns r; closedret := closedret r |}
+  | TSetRet => Some {| sets := sets r; nret := S (nret r); accepted := accepted r; late := late r; conns := conns r; closedret := closedret r |}
   | TSetRejected => Some r
   | TAccept c => if closedret r then None
-                 else Some {| sets := sets r; nret := nret r; accepted := (c, nret r) :: accepted r; conns := conns r; closedret := false |}
+                 else Some {| sets := sets r; nret := nret r; accepted := (c, nret r) :: accepted r; late := late r; conns := conns r; closedret := false |}
+  | TOpen c asn hold =>
+    (* C17_session_open_decodes: the configured AS number and hold time (90 only for nil) *)
+    if mem c (map fst (accepted r)) && (asn =? my_asn g) && (hold =? session_hold g) then Some r else None
+  | TOpenSent c =>
+    Some {| sets := sets r; nret := nret r; accepted := accepted r;
+            late := if closedret r then c :: late r else late r; conns := conns r; closedret := closedret r |}
+  | TKeepalive c ph =>
+    (* no keepalive timer when the negotiated hold time is 0 *)
+    match keepalive_period g ph with None => None | Some _ => Some r end
   | THandshake c asn fb acc =>
     match find (fun p => fst p =? c) (accepted r) with
     | None => None
@@ -99,6 +116,10 @@ Definition rstep (g : cfg) (r : rstate) (e : tev) : option rstate :=
          accepted before Close returned completes its handshake first; only a
          TAccept after TCloseRet is a dial after Close *)
       if negb (Bool.eqb acc (hs_accept g asn fb)) then None
+      (* C17_no_message_after_close: the accepting KEEPALIVE answers the peer's
+         OPEN; if that OPEN was sent after Close had returned, the KEEPALIVE was
+         written after Close *)
+      else if acc && mem c (late r) then None
       else if acc then
         (* the first flush on c moves to a set that is at least as recent as
            (a) every Set that had returned when the dial was accepted (connect
@@ -137,7 +158,7 @@ Definition rstep (g : cfg) (r : rstate) (e : tev) : option rstate :=
     | Some x => Some (set_conn {| cs_id := c; cs_j := cs_j x; cs_tbl := cs_tbl x; cs_live := false; cs_fb := cs_fb x |} r)
     | None => Some r
     end
-  | TCloseRet => Some {| sets := sets r; nret := nret r; accepted := accepted r; conns := conns r; closedret := true |}
+  | TCloseRet => Some {| sets := sets r; nret := nret r; accepted := accepted r; late := late r; conns := conns r; closedret := true |}
   | TFinal c tbl =>
     match find_conn c r with
     | Some x => if cs_live x && negb (closedret r)
@@ -146,6 +167,7 @@ Definition rstep (g : cfg) (r : rstate) (e : tev) : option rstate :=
                 then Some r else None
     | None => None
     end
+  | TOpenAfterClose _ => None
   | TFinalClosed => if closedret r then Some r else None
   end.
 
